@@ -81,6 +81,7 @@ func gen(prop, tier string, r *Rng, out *bufio.Writer, st *Stats) {
 		genC03(w, r, tier)
 		genC03Long(w, r, tier)
 		genC03Thresholds(w, r, tier)
+		genBigRef(g, r, tier)
 	case "C04":
 		genC04(w, r, tier)
 		genC04Long(w, r, tier)
@@ -110,9 +111,11 @@ func gen(prop, tier string, r *Rng, out *bufio.Writer, st *Stats) {
 		}
 	case "C10":
 		genC10(w, r, tier)
+		genC10Routes(w, r, tier)
 	case "C12":
 		genC12(w, r, tier)
 		genC12Overlap(w, r, tier)
+		genBigRef(g, r, tier)
 	case "C13":
 		genC13(w, r, tier)
 	case "C14":
@@ -132,5 +135,11 @@ func gen(prop, tier string, r *Rng, out *bufio.Writer, st *Stats) {
 	default:
 		fmt.Fprintln(os.Stderr, "no generator for", prop)
 		os.Exit(2)
+	}
+	// mixed histories over the whole API, after the property's own generators (whose random streams
+	// stay as they were)
+	switch prop {
+	case "C01", "C02", "C03", "C04", "C05", "C10", "C12", "C13", "C14", "C15", "C20":
+		genMix(w, r, tier, prop)
 	}
 }
